@@ -3,6 +3,9 @@
 import json
 CLAIMED = {
  "C01": ("exploration", "Seeded search over muxing histories on the real Mp4Writer/Mp4Reader over a simulated disk with transparent I/O faults, against a reference model; a clean batch is evidence, not proof.", "§5 C01", "reference model and payload stamping are trusted; bounded histories", "deterministic simulation: seeded API-history search vs reference model over a fault-injecting simulated disk"),
+ "C06": ("exploration", "Seeded storage-fault campaign over valid seed images (field-targeted boundary values, bit rot, lost/misdirected/replayed blocks, cuts, faults between reader calls), then every public read-side call under catch_unwind in overflow-checked and wrapping builds; aborts and stack overflows are caught as worker death.", "§5 C06", "explores the fault neighbourhood of valid images, not all byte strings", "deterministic simulation: seeded storage-fault injection + full reader API schedule, panic/abort oracle in two build profiles"),
+ "C07": ("exploration", "Same campaign with per-API-call budgets on simulated stream calls and bytes (linear in the image length) and a confirmed wall-time stall detector for loops that perform no I/O; never-returning calls are caught by the supervisor heartbeat.", "§5 C07", "CPU-only loops are observed through confirmed wall time, not counted", "deterministic simulation: seeded storage-fault injection, stream-work budget oracle on the simulated disk + stall supervisor"),
+ "C08": ("exploration", "Same campaign with a counting global allocator armed around every API call: single request, peak live and cumulative bytes bounded by fixed linear functions of the image length.", "§5 C08", "additive constants cover width-bounded allocations; fault neighbourhood only", "deterministic simulation: seeded storage-fault injection, allocator seam (counting GlobalAlloc) oracle"),
  "C14": ("exploration", "Seeded search over documented-domain Mp4Config/TrackConfig values plus sample histories, muxed and read back through every accessor of the real reader on the simulated disk.", "§5 C14", "durations compared with a one-tick tolerance; AAC object types >= 32 are a known finding", "deterministic simulation: seeded configuration+history search, accessor read-back vs configuration"),
  "C17": ("exploration", "Seeded hostile histories over the full value range of every public muxer argument with injected hard stream faults, each call under catch_unwind in overflow-checked and wrapping builds; worker death is caught by the supervisor.", "§5 C17", "panics are what catch_unwind or the supervisor can see; other muxer properties applied only inside their domain", "deterministic simulation: hostile API-history search with injected stream faults, panic/abort oracle in two build profiles"),
  "C02": ("exploration", "Same history space, judged only by an independent ISO-BMFF parser evaluating the structural and table relations on the output bytes.", "§5 C02", "independent parser `indep` trusted", "deterministic simulation: seeded API-history search, independent-parser oracle on the simulated disk image"),
@@ -16,7 +19,7 @@ NA = {
  "C16": "finite total functions decided by exhaustive enumeration of their domains: proof by exhaustion, the opposite of seeded search",
  "C18": "pure function of the udta/meta/ilst bytes",
 }
-PENDING = {k: "check under construction in this round (DESIGN.md §5); not claimed until its machinery runs clean" for k in ["C06","C07","C08","C10","C11","C13","C15"]}
+PENDING = {k: "check under construction in this round (DESIGN.md §5); not claimed until its machinery runs clean" for k in ["C10","C11","C13","C15"]}
 import sys
 root = "/verif"
 checks = []
